@@ -35,6 +35,16 @@ for d in sorted(glob.glob(os.path.join(ROOT, "harmless", "H*"))):
     rows.append((hid, ", ".join(sorted(files)), " ".join(out), " ;; ".join(bad)))
     print(rows[-1], flush=True)
 subprocess.run(["git", "-C", WT, "checkout", "-q", "--", "."])
-with open(os.path.join(ROOT, "harmless", "UNITS.md"), "w") as f:
+# a partial run (ids on the command line) updates its rows only
+out = os.path.join(ROOT, "harmless", "UNITS.md")
+keep = {}
+if os.path.exists(out):
+    for line in open(out):
+        m = re.match(r"\| (H[\w-]+) \| (.*) \| (.*) \| (.*) \|$", line.rstrip("\n"))
+        if m: keep[m.group(1)] = tuple(x for x in m.groups())
+for r in rows: keep[r[0]] = tuple(x.replace("|", "/") for x in r)
+def key(h):
+    m = re.match(r"H(\d+)-(\d+)", h); return (int(m.group(1)), int(m.group(2))) if m else (999, 0)
+with open(out, "w") as f:
     f.write("# Behaviour-preserving refactors against the contract units (tools/harmless_units.py)\n\n| refactor | files | units | failed obligations (false alarms) |\n|---|---|---|---|\n")
-    for r in rows: f.write("| " + " | ".join(x.replace("|", "/") for x in r) + " |\n")
+    for h in sorted(keep, key=key): f.write("| " + " | ".join(keep[h]) + " |\n")
